@@ -3,7 +3,7 @@ set_option linter.unusedSimpArgs false
 set_option linter.unusedVariables false
 /-! Lemmas for C12, second part: one step of the optimiser preserves the rendering of the cell (raw and seen
 through `Buffer::get_char` of the flat clone), the row / rows loops are pointwise that step, and
-`Buffer::get_char` of the flat clone is `flatView` of the stored cell. -/
+`Buffer::get_char` of the flat clone (an alpha layer, after the C12 repairs) is `flatView` of the stored cell. -/
 namespace IcyVerif.ColorOpt
 open IcyVerif.Comp IcyVerif.Gen.Fonts
 
@@ -15,6 +15,11 @@ theorem shape_ws {f : Font} {rows : List Nat} (h : shape f rows = .whitespace) :
   · exact h0
   · simp only [h0, if_false] at h
     split at h <;> cases h
+
+theorem shape_block_ne {f : Font} {rows : List Nat} (h : shape f rows = .block) : ones rows ≠ 0 := by
+  unfold shape at h
+  intro h0
+  simp [h0] at h
 
 theorem shape_block {f : Font} {rows : List Nat} (h : shape f rows = .block) : ones rows = f.w * f.h := by
   unfold shape at h
@@ -58,7 +63,7 @@ theorem render_ws {fonts : Nat → Option Font} (pal : Nat → Rgb) (w0 h0 : Nat
     | none => rw [hsp] at hsome; cases hsome
     | some rows' =>
       exact renderCell_blank fonts pal w0 h0 c X f rows rows' hfont hg (by rw [hch]; exact hsp) hb
-        (hok.space_blank rows' hsp) (by rw [hok.rows_len _ _ hsp, hok.rows_len _ _ hg]) hp hbg
+        (hok.space_blank _ _ rows' hg hb hsp) (by rw [hok.rows_len _ _ hsp, hok.rows_len _ _ hg]) hp hbg
 
 theorem ite_space_cases (norm : Bool) (f : Font) (ch : Nat) :
     (if norm && (f.glyph spaceCh).isSome then spaceCh else ch) = ch ∨
@@ -78,8 +83,8 @@ theorem optCell_render {fonts : Nat → Option Font} (pal : Nat → Rgb) (w0 h0 
   have hf := hok _ _ hfont
   rcases hcase with ⟨hs, rfl⟩ | ⟨hs, rfl⟩ | ⟨_, rfl⟩
   · exact render_ws pal w0 h0 hf hfont hg (shape_ws hs) rfl rfl (ite_space_cases norm f c.ch)
-  · exact renderCell_full fonts pal w0 h0 c _ f rows hfont hg hf.width_le
-      (hf.block_full _ _ hg (shape_block hs)) rfl rfl rfl rfl
+  · obtain ⟨hw8, hfull⟩ := hf.block_full _ _ hg (shape_block_ne hs) (shape_block hs)
+    exact renderCell_full fonts pal w0 h0 c _ f rows hfont hg hw8 hfull rfl rfl rfl rfl
   · rfl
 
 theorem optCell_flags {fonts : Nat → Option Font} {norm : Bool} {k : Attr} {c c' : Cell}
@@ -90,41 +95,6 @@ theorem optCell_flags {fonts : Nat → Option Font} {norm : Bool} {k : Attr} {c 
 theorem optCell_isVisible {fonts : Nat → Option Font} {norm : Bool} {k : Attr} {c c' : Cell}
     (h : optCell fonts norm k c = some c') : c'.isVisible = c.isVisible := by
   unfold Cell.isVisible; rw [optCell_flags h]
-
-theorem not_transparent {c : Cell} (h : c.hasTransparentColor = false) :
-    c.attr.fg ≠ IcyVerif.Gen.Comp.transparentColor ∧ c.attr.bg ≠ IcyVerif.Gen.Comp.transparentColor := by
-  unfold Cell.hasTransparentColor at h
-  simp only [Bool.or_eq_false_iff, beq_eq_false_iff_ne, ne_eq] at h
-  exact h
-
-/-- … also when the rewritten cell is read back through `Buffer::get_char` of the flat clone, provided the
-    composited cell is visible and carries no TRANSPARENT_COLOR (the carried attribute is arbitrary: a
-    transparent colour inherited from the carry lands in the channel the glyph does not show) -/
-theorem optCell_flatView_render {fonts : Nat → Option Font} (pal : Nat → Rgb) (w0 h0 : Nat) (hb : Cell → Nat × Nat)
-    {norm : Bool} {k : Attr} {c c' : Cell}
-    (hok : FontsOk fonts) (h : optCell fonts norm k c = some c')
-    (hv : c.isVisible = true) (ht : c.hasTransparentColor = false) :
-    renderCell fonts pal w0 h0 (flatView hb c') = renderCell fonts pal w0 h0 c := by
-  have hv' : c'.isVisible = true := by rw [optCell_isVisible h]; exact hv
-  obtain ⟨hfgT, hbgT⟩ := not_transparent ht
-  obtain ⟨f, rows, hfont, hg, hcase⟩ := optCell_cases h
-  have hf := hok _ _ hfont
-  rcases hcase with ⟨hs, rfl⟩ | ⟨hs, rfl⟩ | ⟨_, rfl⟩
-  · refine render_ws pal w0 h0 hf hfont hg (shape_ws hs) ?_ ?_ ?_
-    · rw [flatView_page hb _ hv']
-    · rw [flatView_bg hb _ hv' hbgT]
-    · rw [flatView_ch hb _ hv']; exact ite_space_cases norm f c.ch
-  · refine renderCell_full fonts pal w0 h0 c _ f rows hfont hg hf.width_le
-      (hf.block_full _ _ hg (shape_block hs)) ?_ ?_ ?_ ?_
-    · rw [flatView_ch hb _ hv']
-    · rw [flatView_page hb _ hv']
-    · rw [flatView_fg hb _ hv' hfgT]
-    · rw [flatView_flags hb _ hv']
-  · unfold flatView; rw [hv, ht]; rfl
-
-/-- an invisible stored cell shows as the default cell -/
-theorem flatView_invisible (hb : Cell → Nat × Nat) {c : Cell} (h : c.isVisible = false) : flatView hb c = defaultCell := by
-  unfold flatView; rw [h]; rfl
 
 /-! ### the loops are pointwise `optCell` -/
 
@@ -205,6 +175,91 @@ theorem optimizeRows_get {fonts : Nat → Option Font} {norm : Bool} {k k' : Att
           simp only [List.getElem?_cons_succ] at hri hri'
           exact hp i r r' hri hri'
 
+/-! ### when the optimiser returns -/
+
+/-- the font page and the code point of a cell are in the font table -/
+def HasGlyph (fonts : Nat → Option Font) (c : Cell) : Prop := ∃ f rows, fonts c.attr.page = some f ∧ f.glyph c.ch = some rows
+
+theorem optCell_defined {fonts : Nat → Option Font} {norm : Bool} {k : Attr} {c : Cell} :
+    (∃ c', optCell fonts norm k c = some c') ↔ HasGlyph fonts c := by
+  constructor
+  · rintro ⟨c', h⟩
+    obtain ⟨f, rows, hf, hg, _⟩ := optCell_cases h
+    exact ⟨f, rows, hf, hg⟩
+  · rintro ⟨f, rows, hf, hg⟩
+    unfold optCell
+    rw [hf]; simp only [hg]
+    cases shape f rows <;> exact ⟨_, rfl⟩
+
+theorem optimizeRow_defined_iff {fonts : Nat → Option Font} {norm : Bool} (k : Attr) (row : List Cell) :
+    (∃ p, optimizeRow fonts norm k row = some p) ↔ ∀ (x : Nat) (c : Cell), row[x]? = some c → HasGlyph fonts c := by
+  induction row generalizing k with
+  | nil =>
+    constructor
+    · intro _ x c hc; simp at hc
+    · intro _; exact ⟨_, rfl⟩
+  | cons a row ih =>
+    constructor
+    · rintro ⟨p, h⟩ x c hc
+      unfold optimizeRow at h
+      cases ha : optCell fonts norm k a with
+      | none => rw [ha] at h; cases h
+      | some a' =>
+        rw [ha] at h
+        simp only at h
+        cases hr : optimizeRow fonts norm a'.attr row with
+        | none => rw [hr] at h; cases h
+        | some q =>
+          cases x with
+          | zero =>
+            simp only [List.getElem?_cons_zero, Option.some.injEq] at hc
+            subst hc
+            exact optCell_defined.mp ⟨a', ha⟩
+          | succ x =>
+            simp only [List.getElem?_cons_succ] at hc
+            exact (ih a'.attr).mp ⟨q, hr⟩ x c hc
+    · intro h
+      obtain ⟨a', ha⟩ := (optCell_defined (norm := norm) (k := k)).mpr (h 0 a rfl)
+      obtain ⟨q, hq⟩ := (ih a'.attr).mpr (fun x c hc => h (x + 1) c (by simpa using hc))
+      obtain ⟨cs', kk⟩ := q
+      exact ⟨(a' :: cs', kk), by unfold optimizeRow; rw [ha]; simp only [hq]⟩
+
+theorem optimizeRows_defined_iff {fonts : Nat → Option Font} {norm : Bool} (k : Attr) (rows : List (List Cell)) :
+    (∃ p, optimizeRows fonts norm k rows = some p) ↔
+      ∀ (y : Nat) (row : List Cell) (x : Nat) (c : Cell), rows[y]? = some row → row[x]? = some c → HasGlyph fonts c := by
+  induction rows generalizing k with
+  | nil =>
+    constructor
+    · intro _ y row x c hr; simp at hr
+    · intro _; exact ⟨_, rfl⟩
+  | cons a rows ih =>
+    constructor
+    · rintro ⟨p, h⟩ y row x c hr hc
+      unfold optimizeRows at h
+      cases ha : optimizeRow fonts norm k a with
+      | none => rw [ha] at h; cases h
+      | some q =>
+        obtain ⟨a', ka⟩ := q
+        rw [ha] at h
+        simp only at h
+        cases hrs : optimizeRows fonts norm ka rows with
+        | none => rw [hrs] at h; cases h
+        | some q2 =>
+          cases y with
+          | zero =>
+            simp only [List.getElem?_cons_zero, Option.some.injEq] at hr
+            subst hr
+            exact (optimizeRow_defined_iff k a).mp ⟨_, ha⟩ x c hc
+          | succ y =>
+            simp only [List.getElem?_cons_succ] at hr
+            exact (ih ka).mp ⟨q2, hrs⟩ y row x c hr hc
+    · intro h
+      obtain ⟨q, hq⟩ := (optimizeRow_defined_iff (fonts := fonts) (norm := norm) k a).mpr (fun x c hc => h 0 a x c rfl hc)
+      obtain ⟨a', ka⟩ := q
+      obtain ⟨q2, hq2⟩ := (ih ka).mpr (fun y row x c hr hc => h (y + 1) row x c (by simpa using hr) hc)
+      obtain ⟨rs', kk⟩ := q2
+      exact ⟨(a' :: rs', kk), by unfold optimizeRows; rw [hq]; simp only [hq2]⟩
+
 /-- `render (optimizeRow norm carry row) = render row`, for every row and every carried attribute -/
 theorem optimizeRow_render {fonts : Nat → Option Font} (pal : Nat → Rgb) (w0 h0 : Nat) {norm : Bool} {k k' : Attr}
     {row row' : List Cell} (hok : FontsOk fonts) (h : optimizeRow fonts norm k row = some (row', k')) :
@@ -234,9 +289,9 @@ theorem optimizeRow_render {fonts : Nat → Option Font} (pal : Nat → Rgb) (w0
 /-! ### `Buffer::get_char` of the flat clone -/
 
 theorem flatCells_get (hb : Cell → Nat × Nat) (t : Bool) (S : List Layer) (W H x y : Nat) (hx : x < W) (hy : y < H) :
-    ∃ row, (flatCells hb t S W H)[y]? = some row ∧ row.length = W ∧ row[x]? = some (getChar hb t S x y) := by
+    ∃ row, (flatCells hb t S W H)[y]? = some row ∧ row.length = W ∧ row[x]? = some (flatStore (getChar hb t S x y)) := by
   unfold flatCells
-  refine ⟨(List.range W).map fun (x : Nat) => getChar hb t S (x : Int) (y : Int), ?_, by simp, ?_⟩
+  refine ⟨(List.range W).map fun (x : Nat) => flatStore (getChar hb t S (x : Int) (y : Int)), ?_, by simp, ?_⟩
   · rw [List.getElem?_map, List.getElem?_range hy]; rfl
   · rw [List.getElem?_map, List.getElem?_range hx]; rfl
 
@@ -259,18 +314,10 @@ theorem flatLayer_getChar (W H : Nat) (cells : List (List Cell)) (x y : Nat) (hx
 theorem merge_none (c : Cell) : merge c none none = c := by
   unfold merge; split <;> rfl
 
-theorem opaqueTail_init (hb : Cell → Nat × Nat) (tr : Option Cell) :
-    opaqueTail hb ⟨none, none, 0, tr⟩ =
-      match tr with
-      | some t => makeSolid hb t defaultCell
-      | none => defaultCell := by
-  have hd : defaultCell.withPage 0 = defaultCell := by decide
-  cases tr <;> simp [opaqueTail, hd, merge_none]
-
-/-- `Buffer::get_char` of the flat clone at a stored cell -/
+/-- `Buffer::get_char` of the flat clone at a stored cell: the layer has an alpha channel and nothing lies beneath it -/
 theorem getChar_flatLayer (hb : Cell → Nat × Nat) (t : Bool) (W H : Nat) (cells : List (List Cell)) (x y : Nat)
     (hx : x < W) (hy : y < H) (row : List Cell) (c : Cell) (hr : cells[y]? = some row) (hc : row[x]? = some c) :
-    getChar hb t [flatLayer W H cells] (x : Int) (y : Int) = flatView hb c := by
+    getChar hb t [flatLayer W H cells] (x : Int) (y : Int) = flatView t c := by
   have hcov : (flatLayer W H cells).covers (x : Int) (y : Int) = true := by
     rw [covers_iff]
     have : (((x : Int) - (flatLayer W H cells).offX < 0 || (y : Int) - (flatLayer W H cells).offY < 0
@@ -294,18 +341,19 @@ theorem getChar_flatLayer (hb : Cell → Nat × Nat) (t : Bool) (W H : Nat) (cel
   unfold coveredStep
   rw [hcell]
   have hm : (flatLayer W H cells).mode = .normal := rfl
-  have ha : (flatLayer W H cells).alpha = false := rfl
+  have ha : (flatLayer W H cells).alpha = true := rfl
   have hd : (flatLayer W H cells).dfltPage = 0 := rfl
-  simp only [hm, ha, hd, Bool.not_false, if_true]
+  simp only [hm, ha, hd, Bool.not_true, Bool.false_eq_true, if_false]
   unfold flatView
   have hinit : St.init = ⟨none, none, 0, none⟩ := rfl
   cases hv : c.isVisible with
   | false =>
-    simp only [Bool.false_eq_true, if_false, hinit, opaqueTail_init]
+    simp only [Bool.false_eq_true, if_false, hinit, go, finish]
+    cases t <;> simp [merge_none]
   | true =>
     simp only [if_true, hinit, merge_none]
     cases htr : c.hasTransparentColor with
     | false => simp only [Bool.false_eq_true, if_false]
-    | true => simp only [if_true, Option.isNone_none, opaqueTail_init]
+    | true => simp only [if_true, Option.isNone_none, go, finish]
 
 end IcyVerif.ColorOpt
